@@ -7,6 +7,8 @@ import (
 	"encoding/json"
 	"errors"
 	"fmt"
+	"github.com/diskfs/go-diskfs/filesystem/ext4"
+	"github.com/diskfs/go-diskfs/filesystem/fat32"
 	"github.com/diskfs/go-diskfs/verifhook/vtime"
 	"io"
 	"os"
@@ -461,6 +463,14 @@ func roLetters(final, writableDevice bool) []roLetter {
 				_, err := c.d.WritePartitionContents(c.im.Part, bytes.NewReader(make([]byte, 4096)))
 				return err
 			}},
+			roLetter{"ext4.Create(beyond the end of the image)", true, func(c *roCtx) error {
+				_, err := ext4.Create(c.d.Backend, c.d.Size+1<<20, 0, 512, ext4SmallParams(2, true))
+				return err
+			}},
+			roLetter{"fat32.Create(beyond the end of the image)", true, func(c *roCtx) error {
+				_, err := fat32.Create(c.d.Backend, c.d.Size+1<<20, 0, 512, "X", false)
+				return err
+			}},
 			roLetter{"CreateFilesystem", true, func(c *roCtx) error {
 				_, err := c.d.CreateFilesystem(disk.FilesystemSpec{Partition: c.im.Part, FSType: filesystem.TypeFat32, VolumeLabel: "X"})
 				return err
@@ -533,6 +543,15 @@ func (t c11Target) scenario(depth int) explore.Scenario {
 			dev = im.Dev.Clone()
 			dev.LogEvents = true
 			b = failingWriterBackend{file.New(dev, false), dev}
+		case "ro-osfile":
+			// the image file is open read-WRITE at the OS level; only the library's wrapper says read-only
+			of, err := os.OpenFile(im.File, os.O_RDWR, 0)
+			if err != nil {
+				add("infra|open", err.Error())
+				return out
+			}
+			defer of.Close()
+			b = file.New(of, true)
 		case "ro-frompath":
 			fb, err := file.OpenFromPath(im.File, true)
 			if err != nil {
@@ -547,7 +566,7 @@ func (t c11Target) scenario(depth int) explore.Scenario {
 		if im.LSS == 4096 {
 			ss = diskfs.SectorSize4k
 		}
-		if t.Mode == "ro-open" || t.Mode == "ro-frompath" {
+		if t.Mode == "ro-open" || t.Mode == "ro-frompath" || t.Mode == "ro-osfile" {
 			raw, _ := os.ReadFile(im.File)
 			fileHash = sha256.Sum256(raw)
 		}
@@ -663,6 +682,9 @@ func c11Targets(quick bool) []c11Target {
 			ts = append(ts, c11Target{k, "gptbad", m})
 		}
 	}
+	for _, k := range []string{"fat32", "ext4"} {
+		ts = append(ts, c11Target{k, "gpt", "ro-osfile"}, c11Target{k, "none", "ro-osfile"})
+	}
 	// FAT images holding an empty file the way other implementations store it (no cluster)
 	for _, k := range []string{"fat16x", "fat32x", "fat32y"} {
 		for _, m := range []string{"rw-memdev", "ro-memdev"} {
@@ -687,7 +709,7 @@ func C11(r *ev.Run) {
 		if !r.Quick() && (tg.Mode == "ro-memdev" || tg.Mode == "rw-memdev") && tg.Table == "gpt" {
 			d = 3
 		}
-		if tg.Mode == "ro-open" || tg.Mode == "ro-frompath" {
+		if tg.Mode == "ro-open" || tg.Mode == "ro-frompath" || tg.Mode == "ro-osfile" {
 			d = 1
 			if !r.Quick() {
 				d = 2
